@@ -41,6 +41,21 @@ CHECKS = {
    "DESIGN.md 6 C11",
    "Trusted: VC generator, go/types, solvers; text/template rendering as a deterministic function render(text, data); bytes.Buffer; ast.IsExported/pathlib/filepath uninterpreted; axiom ErrInfiniteLoop != nil.",
    "contract-based deductive verification: call-site obligations for the bindings, loop invariants + variant for fixpoint and termination on the real ParseTemplates, z3/cvc5"),
+ "C12": ("proof",
+   "Proved on the real code: validateSchema returns nil exactly when the file-level template-data and every interface's template-data are valid against the schema (and errors on a nil schema); VerifyJSONSchema is nil iff gojsonschema validates; getTemplate returns, for built-in names, the embedded template with the built-in schema, for file://, http(s):// names the template at that URL and the schema at template-schema exactly when require-template-schema-exists is set (never a schema fetched for another URL), and an error for unknown names or failed downloads; RemoteTemplate downloads at most once and never caches an error as success (cache-entry invariant); in Generate validation of the data that is rendered happens before execution and formatting, and nothing is returned when any stage fails. Partial: JSON-schema semantics are gojsonschema's; downloads are an assumed function of the URL.",
+   "DESIGN.md 6 C12", "Trusted: VC generator, go/types, solvers; gojsonschema uninterpreted; download(url) == content(url) (trusted contract); text/template.", "contract-based deductive verification: VC generation over the real function bodies against //@ contracts (postconditions, loop invariants, call-site obligations, frames), z3/cvc5"),
+ "C13": ("proof",
+   "Proved: Config.GetReplacement is the two-level lookup; methodData looks every parameter and every result up under exactly (package path, name) of its own named or alias type (nothing for composite types) and passes that replacement to AddVar for that variable only (call-site obligations); AddVar with a replacement takes the type of the named object in the loaded package and records only the replacement's package as the variable's import (so the original package is imported only if another variable needs it), without one it keeps the variable's type with the imports that type mentions; replace-type is inherited across config levels by mergeConfigs' typed-map postcondition (C08). Partial: packages.Load and rendering are assumed.",
+   "DESIGN.md 6 C13", "Trusted: VC generator, go/types accessors as pure functions, solvers; packages.Load opaque.", "contract-based deductive verification: VC generation over the real function bodies against //@ contracts (postconditions, loop invariants, call-site obligations, frames), z3/cvc5"),
+ "C14": ("proof",
+   "Lemma-level, proved on the real code: methodData (method name; one Param per signature variable, in order, bound to that variable; variadic flag exactly on the last parameter of a variadic signature; results likewise), typeParams (one entry per type parameter, in order, built from its name and constraint), Generate (one Method per method of the looked-up interface, in order), ResolveVariableNameCollisions (afterwards names are pairwise distinct, none was visible before, all are visible now), varName/varNameForType (non-empty, never a keyword, predeclared type or template identifier), AddVar (the type string is reserved; the imports recorded for a variable cover every package its type mentions: cov specification by go/types constructor). Not decided: that the strings offered denote the same Go types (types.TypeString) and are valid identifiers.",
+   "DESIGN.md 6 C14", "Trusted: VC generator, go/types accessors and the listed go/types axioms, solvers; types.TypeString.", "contract-based deductive verification: VC generation over the real function bodies against //@ contracts (postconditions, loop invariants, call-site obligations, frames), z3/cvc5"),
+ "C02": ("proof",
+   "Lemma-level, proved on the real code: Registry.LookupInterface returns the Complete()d interface of the object looked up by name and errors for missing or non-interface objects; Generate creates one Method per method of that interface in order from iface.Method(i); methodData reproduces parameter/result counts, order, variables and variadic-ness; ParsePackages/NodeVisitor never return function-local types (so a local type cannot duplicate its package-level namesake); the imports collected for each variable cover the packages of its type (so types are not rendered unqualified for lack of an import). Not decided: assignability of the rendered mock (Go type checker on template output).",
+   "DESIGN.md 6 C02", "Trusted: VC generator, go/types accessors and axioms, solvers.", "contract-based deductive verification: VC generation over the real function bodies against //@ contracts (postconditions, loop invariants, call-site obligations, frames), z3/cvc5"),
+ "C01": ("proof",
+   "Lemma-level (necessary mechanisms, each proved on the real code): import completeness (populateImportsHelper/populateImportNamedType: after the call the import set covers every package the type expression mentions, by structural recursion over the go/types constructors, 12 cases, with loop invariants); qualifier bijection (C15); names avoid qualifiers/type strings/keywords/template identifiers (C14); findPkgPath creates only the output directory, terminates (variant 1000 - i) and takes the module path from the go.mod parser; NewTemplateGenerator's in-package test is exactly same package name and same directory; format dispatches the three documented formatters and errors otherwise. Not decided: that rendered text parses and type-checks (template text, types.TypeString, goimports).",
+   "DESIGN.md 6 C01", "Trusted: VC generator, go/types accessors and axioms, the cov axioms as the definition of 'packages mentioned by a type', pathlib/modfile, solvers.", "contract-based deductive verification: VC generation over the real function bodies against //@ contracts (postconditions, loop invariants, call-site obligations, frames), z3/cvc5"),
 }
 
 NOT_APPLICABLE = {
